@@ -290,7 +290,10 @@ def r10(cx):
         fl = Flow(f)
         ups = [c for c in own_nodes(f) if isinstance(c, ast.Call) and call_name(c) == "_update"]
         wrs = [c for c in own_nodes(f) if isinstance(c, ast.Call) and call_name(c) == "_to_buffer"]
-        cx.need(len(ups) == 1 and len(wrs) == 1, f"{spec}: expected one _update arm and one _to_buffer arm")
+        if not (len(ups) == 1 and len(wrs) == 1):
+            # another shape of the dispatch: decided per kind of part by rule R12 (evaluation of the assignment)
+            cx.note(f, construct=f"{spec.split('::')[1]}: dispatch has another shape than one _update arm and one _to_buffer arm", detail="decided by rule R12")
+            continue
         t = f"hasattr({tvar}, '_update')"
         ok = any(c.text() == t for c in fl.conds_at(ups[0])) and any(c.text() == f"not ({t})" for c in fl.conds_at(wrs[0]))
         cx.check(ok, ups[0], construct=f"{spec.split('::')[1]}: {t} -> in-place _update, else _to_buffer at the located offset", detail="compounds keep their headers: only their own _update rewrites them",
